@@ -35,7 +35,7 @@ ASSUMPTIONS = [
 BUDGET_S = {"quick": 1200, "thorough": 3400}
 QUERY_TIMEOUT_MS = {"quick": 30000, "thorough": 60000}
 
-OPS = ["pre:A", "pre:B", "pre:X_missing_prerequisite",
+OPS = ["pre:A", "pre:B", "pre:X_missing_prerequisite", "pre:A:details",
        "fit", "fit:range_x", "fit:weight_cp", "fit:gcf_k", "fit:segment-name", "fit:model_key",
        "fit:params_initial", "fit:params_initial-bound", "fit:params_initial-vary", "fit:method", "fit:preprocessing-B2", "fit:unknown-key", "fit:unknown-model",
        "set:weight_cp", "set:range_x", "set:unknown-key", "rate", "emodulus-mindelta"]
@@ -51,7 +51,7 @@ def tasks(tier):
     ts = []
     for hist in itertools.product(range(len(OPS)), repeat=k):
         ts.append({"name": "hist:" + ">".join(OPS[i] for i in hist), "fn": "t_history",
-                   "args": {"hist": list(hist)}, "max_paths": 3000})
+                   "args": {"hist": list(hist)}, "max_paths": 40000})
     return ts
 
 
@@ -73,6 +73,11 @@ def do_op(s, idnt, op, v):
         # fits need an abscissa: make sure a pipeline that creates it is stored
         pass
     try:
+        if op == "pre:A:details":
+            st, op_ = copy.deepcopy(hc.PIPELINES["A"])
+            core.count("transitions")
+            idnt.apply_preprocessing(st, options=op_, ret_details=True)
+            return None
         if op.startswith("pre:"):
             return hc.request(s, idnt, op[4:], "apply")
         core.count("transitions")
@@ -274,7 +279,9 @@ def defaults(idnt):
     return kw
 def do(idnt, op, v):
     try:
-        if op.startswith("pre:"):
+        if op == "pre:A:details":
+            st, o = copy.deepcopy(PIPELINES["A"]); idnt.apply_preprocessing(st, options=o, ret_details=True)
+        elif op.startswith("pre:"):
             st, o = copy.deepcopy(PIPELINES[op[4:]]); idnt.apply_preprocessing(st, options=o)
         elif op == "fit": idnt.fit_model(**defaults(idnt))
         elif op == "fit:range_x": idnt.fit_model(range_x=[v["a"], v["b"]], **defaults(idnt))
